@@ -745,6 +745,11 @@ def build_pool(master_seed, scale=1.0):
         pool["prov"].append(["winmap", "aliases", zid])
     for w in ("GMT Standard Time", "Eastern Standard Time", "Tokyo Standard Time", "Nepal Standard Time", "No Such Zone"):
         pool["prov"].append(["winmap", "w2t", w])
+    # pattern texts that are rejected: a failed creation must leave nothing behind in the per-culture pattern caches
+    for ptype, bad in (("localdate", "yyyy-MM-dd'open"), ("localtime", "HH:mm:ss.ffffffffff"), ("offset", "%"), ("localdatetime", ""),
+                       ("duration", "xyz"), ("instant", "uuuu-MM-dd'T"), ("annualdate", "yyyy")):  # fmt: skip
+        for cn in rng.sample(CULTURES, 3):
+            pool["text"].setdefault(cn, []).append(["fmt", ptype, bad, cn, "cached", rand_value(ptype)])
     for ptype, names in ISO_SINGLETONS.items():
         for nm in names:
             pool["iso"].append(["iso", ptype, nm, rand_value(ptype)])
